@@ -63,3 +63,11 @@ Definition truth_structs_ok (o : out)
                        && Bool.eqb (s_repr_c s) r && option_eqb N.eqb (s_assert_size s) sz
                        && list_eqb str_n_eqb (s_assert_offsets s) offs)
            (o_structs o) t.
+
+(** C06 ground truth: per emitted struct, (field name, shape) in order *)
+From W2W Require Import C06Spec.
+Definition truth_shapes_ok (o : out) (t : list (string * list (string * shape))) : bool :=
+  list_rel (fun s x => String.eqb (s_name s) (fst x)
+                       && list_rel (fun f y => String.eqb (fd_name f) (fst y) && shape_eqb (denote (fd_ty f)) (snd y))
+                                   (s_fields s) (snd x))
+           (o_structs o) t.
